@@ -4,6 +4,7 @@ import (
 	"encoding/json"
 	"fmt"
 	"os"
+	"os/exec"
 	"path/filepath"
 	"regexp"
 	"runtime"
@@ -36,6 +37,109 @@ func loadKnown(verif string) []KnownFinding {
 		fmt.Fprintln(os.Stderr, "known_findings.json:", err)
 	}
 	return ks
+}
+
+// verifyProp generates and solves the obligations of a property on an engine.
+func verifyProp(eng *Engine, prop string, opts solveOpts) (results []*Result, vcs []*VC, engineErrs []string) {
+	keys := eng.contractedKeysForProp(prop)
+	for _, k := range keys {
+		vc, err := eng.verifyFunc(k)
+		if err != nil {
+			engineErrs = append(engineErrs, err.Error())
+			vc = newVC(eng, k)
+			vc.obls = append(vc.obls, &Obl{Name: "generate", Kind: "stale", Guard: "true", Formula: "false", Func: k,
+				Static: "fail:the generator could not produce the obligations of " + k + ": " + firstLine(err.Error())})
+		}
+		vcs = append(vcs, vc)
+	}
+	for _, n := range eng.cf.LemmaOrd {
+		for _, p := range eng.cf.Lemmas[n].Props {
+			if p == prop {
+				vc, err := eng.verifyLemma(n)
+				if err != nil {
+					engineErrs = append(engineErrs, err.Error())
+					continue
+				}
+				vcs = append(vcs, vc)
+			}
+		}
+	}
+	if len(eng.immutable) > 0 {
+		vcs = append(vcs, eng.immutabilityObligations())
+	}
+	results = solveAll(vcs, opts)
+	return
+}
+
+type mutantResult struct {
+	Mutant   string   `json:"mutant"`
+	Detected bool     `json:"detected"`
+	Failed   []string `json:"failed_obligations,omitempty"`
+	Error    string   `json:"error,omitempty"`
+	Seconds  float64  `json:"seconds"`
+}
+
+// runMutants applies every /verif/mutants/<prop>-*.patch to a scratch copy of
+// the repository and checks that the property's obligations then fail.
+func runMutants(eng *Engine, prop, verif string, known map[string]KnownFinding) []mutantResult {
+	files, _ := filepath.Glob(filepath.Join(verif, "mutants", prop+"-*.patch"))
+	sort.Strings(files)
+	var out []mutantResult
+	for _, pf := range files {
+		start := time.Now()
+		mr := mutantResult{Mutant: filepath.Base(pf)}
+		func() {
+			scratch, err := os.MkdirTemp("", "govc-mutant-")
+			if err != nil {
+				mr.Error = err.Error()
+				return
+			}
+			defer os.RemoveAll(scratch)
+			srcs, _ := filepath.Glob(filepath.Join(eng.repo, "*.go"))
+			srcs = append(srcs, filepath.Join(eng.repo, "go.mod"), filepath.Join(eng.repo, "go.sum"))
+			for _, f := range srcs {
+				b, err := os.ReadFile(f)
+				if err == nil {
+					os.WriteFile(filepath.Join(scratch, filepath.Base(f)), b, 0o644)
+				}
+			}
+			cmd := exec.Command("patch", "-p1", "-s", "-i", pf)
+			cmd.Dir = scratch
+			if o, err := cmd.CombinedOutput(); err != nil {
+				mr.Error = "patch does not apply (the code it mutates has changed): " + firstLine(string(o))
+				return
+			}
+			meng, err := loadEngine(scratch)
+			if err != nil {
+				mr.Error = "mutant does not load: " + firstLine(err.Error())
+				return
+			}
+			work, _ := os.MkdirTemp("", "govc-mutant-work-")
+			defer os.RemoveAll(work)
+			rs, _, errs := verifyProp(meng, prop, solveOpts{workDir: work, quickS: 4, fullS: 6, parallel: (runtime.NumCPU() + 1) / 2})
+			for _, r := range rs {
+				if r.Obl.Kind == "cover" {
+					continue
+				}
+				if r.Status != "unsat" {
+					if _, ok := known[oblID(r.Obl)]; ok {
+						continue
+					}
+					mr.Failed = append(mr.Failed, oblID(r.Obl))
+				}
+			}
+			if len(errs) > 0 {
+				mr.Failed = append(mr.Failed, "engine: "+firstLine(errs[0]))
+			}
+			mr.Detected = len(mr.Failed) > 0
+		}()
+		mr.Seconds = time.Since(start).Seconds()
+		if len(mr.Failed) > 6 {
+			mr.Failed = append(mr.Failed[:6], fmt.Sprintf("... and %d more", len(mr.Failed)-6))
+		}
+		out = append(out, mr)
+	}
+	return out
 }
 
 func runCheck(eng *Engine, prop, tier, verif string, loadS float64, start time.Time) int {
@@ -183,6 +287,40 @@ func runCheck(eng *Engine, prop, tier, verif string, loadS float64, start time.T
 		exit = 1
 	}
 
+	// thorough tier: must-fail corpus and witnesses of the recorded findings
+	var mutants []mutantResult
+	var witnessRuns []map[string]interface{}
+	if tier == "thorough" {
+		mutants = runMutants(eng, prop, verif, knownIdx)
+		for _, m := range mutants {
+			if !m.Detected {
+				fmt.Printf("SELFTEST: mutant %s not detected (%s)\n", m.Mutant, m.Error)
+			}
+		}
+		seenW := map[string]bool{}
+		for _, k := range known {
+			if k.Property != prop || k.Witness == "" || seenW[k.Witness] {
+				continue
+			}
+			seenW[k.Witness] = true
+			w := runWitness(verif, eng.repo, k.Witness)
+			witnessRuns = append(witnessRuns, map[string]interface{}{"witness": k.Witness, "finding_status": k.Status, "failed_on_this_tree": w.Failed, "seconds": w.Seconds, "run_error": w.RunError})
+			if k.Status == "fixed" && w.Failed {
+				// a repaired defect is back: the stored failing input fails again on the real code
+				rp := filepath.Join(verif, "replays", sanitize(prop+"__witness__"+k.Witness)+".json")
+				rep := map[string]interface{}{"property": prop, "obligation": k.Obligation, "what": k.What, "replay": w}
+				b, _ := json.MarshalIndent(rep, "", " ")
+				os.WriteFile(rp, append(b, '\n'), 0o644)
+				if !seenV[k.Obligation] {
+					seenV[k.Obligation] = true
+					fmt.Printf("VIOLATION property=%s replay=%s\n", prop, rp)
+					fmt.Printf("  the witness of the repaired finding fails again: %s\n", k.Witness)
+					exit = 1
+				}
+			}
+		}
+	}
+
 	// evidence
 	abstr := map[string]bool{}
 	assumed := map[string]bool{}
@@ -243,6 +381,8 @@ func runCheck(eng *Engine, prop, tier, verif string, loadS float64, start time.T
 			"known_finding_obligations": knownL,
 			"engine_errors":            engineErrs,
 			"bounded_standins":         []string{},
+			"must_fail_corpus":         mutants,
+			"witness_runs":             witnessRuns,
 		},
 		"assumptions": sortedKeys(assumed),
 		"wall_s":      time.Since(start).Seconds(),
